@@ -24,6 +24,11 @@ def _arms(t):
     return [a for _, a in t.args[1]] if t.op == "mterm" else [t.args[1], t.args[2]]
 
 
+def _uint_head(f):
+    h = f.split("::")[0]
+    return h in INT_BITS and h not in SIGNED
+
+
 class Prover:
     def __init__(self, an):
         self.an = an
@@ -286,6 +291,16 @@ class Prover:
                 return True
             if (self.le(a, x, facts) and self.nonzero(y, facts)) or (self.le(a, y, facts) and self.nonzero(x, facts)):
                 return True
+        # x <= x.checked_next_multiple_of(m)!Some  (rounding up never decreases an unsigned value)
+        if b.op == "payload" and b.args[1] == "Some" and b.args[0].op == "call" and b.args[0].args[0].endswith("::checked_next_multiple_of") and _uint_head(b.args[0].args[0]):
+            if self.lt(a, b.args[0].args[2][0], facts):
+                return True
+        # a <= x (+) y = b and a != b  (`Some(new) if new != self.offset`)
+        if b.op == "payload" and b.args[1] == "Some" and b.args[0].op == "call" and b.args[0].args[0].endswith("::checked_add") \
+                and _uint_head(b.args[0].args[0]) and self._distinct(a, b, facts):
+            x, y = b.args[0].args[2]
+            if a is x or a is y:
+                return True
         # position of the first match in a slice is an index into it
         if a.op == "payload" and a.args[1] == "Some" and a.args[0].op == "call" and a.args[0].args[0] in ("slice::position", "slice::rposition"):
             s = a.args[0].args[2][0]
@@ -306,11 +321,77 @@ class Prover:
             x, y = b.args[0].args[2]
             if self.le(a, x, facts) or self.le(a, y, facts):
                 return True
+        if b.op == "payload" and b.args[1] == "Some" and b.args[0].op == "call" and b.args[0].args[0].endswith("::checked_next_multiple_of") and _uint_head(b.args[0].args[0]):
+            if self.le(a, b.args[0].args[2][0], facts):
+                return True
         if b.op == "bin" and b.args[0] == "Add" and b in self.an.prog.noovf and (self.le(a, b.args[1], facts) or self.le(a, b.args[2], facts)):
             return True
         ua, lb_ = self.ub(a, facts), self.lb(b, facts)
         if ua is not None and lb_ is not None and ua <= lb_:
             return True
+        # hi <= s.len() on a path where s.get(lo..hi) / s.get(..hi) succeeded
+        if b.op == "len":
+            for f in facts:
+                if f[0] == "var" and f[2] == "Some" and f[1].op == "call" and f[1].args[0] == "[T]::get" and f[1].args[2][0] is b.args[0]:
+                    r = f[1].args[2][1]
+                    if r.op == "agg" and r.args[1] in ("ops::Range", "ops::RangeTo") and r.args[4][-1] is a:
+                        return True
+        return False
+
+    # ------------------------------------------------------------------ deciding a comparison
+    def arith(self, t, facts):
+        """value-preserving simplification of an integer term under facts:  (x (+) y)!Some - x = y ;  (x + y) - x = y when the sum
+        is known not to have wrapped;  the .0 of a checked operation whose overflow flag is known false is the plain result"""
+        if t.op == "proj" and t.args[1][:2] == ("f", 0) and t.args[0].op == "bin" and t.args[0].args[0].endswith("WithOverflow"):
+            o, x, y = t.args[0].args[0][:-12], t.args[0].args[1], t.args[0].args[2]
+            if any(f[0] == "false" and f[1].op == "proj" and f[1].args[0] is t.args[0] and f[1].args[1][:2] == ("f", 1) for f in facts):
+                t2 = self.arith(Term("bin", o, x, y, t.args[0].args[3]), facts)
+                if t2.op != "bin" or t2.args[0] != o:
+                    return t2
+                return t
+        if t.op == "bin" and t.args[0] == "Sub":
+            x, y = t.args[1], t.args[2]
+            if x.op == "payload" and x.args[1] == "Some" and x.args[0].op == "call" and x.args[0].args[0].endswith("::checked_add") \
+                    and _uint_head(x.args[0].args[0]):
+                p, q = x.args[0].args[2]
+                if y is p:
+                    return q
+                if y is q:
+                    return p
+            if x.op == "bin" and x.args[0] == "Add" and x in self.an.prog.noovf:
+                if y is x.args[1]:
+                    return x.args[2]
+                if y is x.args[2]:
+                    return x.args[1]
+        return t
+
+    def decide(self, c, facts):
+        """truth of a boolean term under facts, with the order reasoning above: True / False / None (unknown)"""
+        tv = self.an.truth(facts, c)
+        if tv is not None:
+            return tv
+        if c.op == "un" and c.args[0] == "Not":
+            r = self.decide(c.args[1], facts)
+            return None if r is None else not r
+        if c.op == "bin" and c.args[0] in ("Lt", "Le", "Gt", "Ge", "Eq", "Ne"):
+            o, a, b = c.args[0], self.arith(c.args[1], facts), self.arith(c.args[2], facts)
+            if o in ("Gt", "Ge"):
+                o, a, b = {"Gt": "Lt", "Ge": "Le"}[o], b, a
+            if o == "Lt":
+                return True if self.lt(a, b, facts) else (False if self.le(b, a, facts) else None)
+            if o == "Le":
+                return True if self.le(a, b, facts) else (False if self.lt(b, a, facts) else None)
+            same = a is b or (a.op == "const" and b.op == "const" and a.args[1] == b.args[1])
+            diff = self.lt(a, b, facts) or self.lt(b, a, facts)
+            if same or diff:
+                return (o == "Eq") == bool(same)
+        return None
+
+    def _distinct(self, a, b, facts):
+        for f in facts:
+            if f[0] in ("true", "false") and f[1].op == "bin" and f[1].args[0] in ("Eq", "Ne") and (f[0] == "true") == (f[1].args[0] == "Ne"):
+                if (f[1].args[1] is a and f[1].args[2] is b) or (f[1].args[1] is b and f[1].args[2] is a):
+                    return True
         return False
 
     def _cmp_ty(self, a, b):
